@@ -24,6 +24,7 @@ pub fn format(cst: &Cst<'_>) -> String {
 }
 
 fn gen_cst(cst: &Cst<'_>) -> PrintItems {
+    INDENT_DEPTH.with(|depth| depth.set(0));
     let mut items = PrintItems::new();
     gen_node(cst, NodeRef::ROOT, &mut items);
     items
@@ -87,15 +88,30 @@ fn push_text(txt: &str, items: &mut PrintItems) {
     items.extend(ir_helpers::gen_from_raw_string(txt));
 }
 
+thread_local! {
+    static INDENT_DEPTH: std::cell::Cell<usize> = const { std::cell::Cell::new(0) };
+}
+/// The printer counts indentation levels in a `u8`: deeper nesting is printed without further indentation.
+const MAX_INDENT_DEPTH: usize = 200;
+
 fn indent(width: usize, items: &mut PrintItems) {
     for _ in 0..width {
-        items.push_signal(Signal::StartIndent);
+        let depth = INDENT_DEPTH.with(|d| d.replace(d.get() + 1));
+        if depth < MAX_INDENT_DEPTH {
+            items.push_signal(Signal::StartIndent);
+        }
     }
 }
 
 fn dedent(width: usize, items: &mut PrintItems) {
     for _ in 0..width {
-        items.push_signal(Signal::FinishIndent);
+        let depth = INDENT_DEPTH.with(|d| {
+            d.set(d.get().saturating_sub(1));
+            d.get()
+        });
+        if depth < MAX_INDENT_DEPTH {
+            items.push_signal(Signal::FinishIndent);
+        }
     }
 }
 
